@@ -358,6 +358,11 @@ class Interp:
                     return args[1]
             if isinstance(target, Closure):
                 return self.call_closure(target, args, e)
+            if isinstance(target, Opaque) and target.what.startswith(('module:torch.', 'external:torch.')):
+                # a torch function passed around as a value (e.g. `_default_op(torch.log)`)
+                fake = ast.Call(func=ast.Attribute(value=ast.Name(id='torch', ctx=ast.Load()), attr=target.what.rsplit('.', 1)[1], ctx=ast.Load()),
+                                args=e.args, keywords=e.keywords)
+                return self.torch_fn(target.what.rsplit('.', 1)[1], fake, env, kws)
             raise Unsupported(e, f"call of {target!r}")
         raise Unsupported(e)
 
